@@ -16,6 +16,86 @@ func init() {
 }
 
 func runC04(c *Ctx) {
+	c.Rule("C04.SCHEMAKEY", "FLOW: the schema cache key of getSchema pairs every column with its own type: next to the list of column names it carries a list built by one append per element of that very list, in its order, and neither list is re-sorted afterwards — a key that only counts types lets two batches whose columns trade types share a cached schema, and the second batch's flush fails after it was acknowledged")
+	if fn := c.P.Func("(*internal/ingest.ArrowWriter).getSchema"); fn != nil {
+		var keyCall ssa.CallInstruction
+		for _, call := range findCalls(fn, false, "fmt.Sprintf") {
+			// the key is what schemaCache.get receives
+			for _, g := range callsIn(fn, false) {
+				if strings.HasSuffix(callName(g), "schemaCache).get") || strings.HasSuffix(callName(g), ".get") {
+					if len(g.Common().Args) >= 2 && g.Common().Args[1] == callValue(call) {
+						keyCall = call
+					}
+				}
+			}
+		}
+		if keyCall == nil {
+			c.Triv("C04.SCHEMAKEY", "getSchema|key-shape", fn.Pos(), "the key is not a Sprintf over lists; shape not judged")
+		} else {
+			args := bindArgs(keyCall)
+			// candidate lists: []string phis
+			var lists []ssa.Value
+			for _, a := range args {
+				if a != nil && a.Type().String() == "[]string" {
+					if _, isParam := resolveParam(a).(*ssa.Parameter); !isParam {
+						lists = append(lists, a)
+					}
+				}
+			}
+			// for each list, over which slice is the loop that appends to it?
+			loopOver := func(list ssa.Value) ssa.Value {
+				var over ssa.Value
+				seen := map[ssa.Value]bool{}
+				var rec func(v ssa.Value)
+				rec = func(v ssa.Value) {
+					if v == nil || seen[v] {
+						return
+					}
+					seen[v] = true
+					switch x := v.(type) {
+					case *ssa.Phi:
+						for _, e := range x.Edges {
+							rec(e)
+						}
+					case *ssa.Call:
+						if b, ok := x.Call.Value.(*ssa.Builtin); ok && b.Name() == "append" {
+							// the enclosing loop's bound
+							for blk := x.Block(); blk != nil; blk = blk.Idom() {
+								for _, in2 := range blk.Instrs {
+									if bo, ok := in2.(*ssa.BinOp); ok && bo.Op == token.LSS {
+										if ln, ok := bo.Y.(*ssa.Call); ok {
+											if lb, ok := ln.Call.Value.(*ssa.Builtin); ok && lb.Name() == "len" && over == nil && blockInCycle(blk) {
+												over = ln.Call.Args[0]
+											}
+										}
+									}
+								}
+							}
+							rec(x.Call.Args[0])
+						}
+					}
+				}
+				rec(list)
+				return over
+			}
+			paired := false
+			for _, t := range lists {
+				ov := loopOver(t)
+				for _, a := range lists {
+					if a != t && ov != nil && ov == a {
+						paired = true
+					}
+				}
+			}
+			sorted := false
+			for _, call := range callsIn(fn, false) {
+				if nm := callName(call); strings.HasPrefix(nm, "sort.") || strings.HasPrefix(nm, "slices.Sort") {
+					sorted = true
+				}
+			}
+			c.Check(len(lists) >= 2 && paired && !sorted, "C04.SCHEMAKEY", "getSchema|names-paired-with-types", keyCall.Pos(), "the key carries the name list and a type list appended per name, unsorted", "the schema cache key does not pair each column with its own type (no list appended once per element of the name list, or a list is re-sorted after pairing): `{a:int,b:float}` and `{a:float,b:int}` get the same key, the second batch is flushed with the first one's schema, fails (`column a: expected []int64, got []float64`) and its acknowledged rows never reach storage")
+		}
+	}
 	p := c.P
 	c.Rule("C04.ASSERT", "DOM: in internal/ingest every single-result type assertion whose operand is read out of a column map (map[string]interface{}) is dominated by a successful comma-ok assertion or type-switch test of that same value to that same type — a disagreement returns an error instead of panicking the flush worker")
 	c.Rule("C04.INDEX", "DOM: every constant-index access s[k] to a string that is a column-map key is reached only where len(s) > k was established on every path")
